@@ -247,8 +247,11 @@ func readable(v reflect.Value) reflect.Value {
 	return reflect.NewAt(v.Type(), unsafe.Pointer(v.UnsafeAddr())).Elem()
 }
 
-// deepCopyInto makes dst an independent deep copy of src (same type). Pointers, slices and maps are re-allocated.
-func deepCopyInto(dst, src reflect.Value) {
+// deepCopyInto makes dst an independent deep copy of src (same type). Pointers, slices and maps are re-allocated;
+// a pointer met a second time (shared or cyclic structure: a doubly linked list) maps to the copy made the first time.
+func deepCopyInto(dst, src reflect.Value) { deepCopyMemo(dst, src, map[unsafe.Pointer]reflect.Value{}) }
+
+func deepCopyMemo(dst, src reflect.Value, memo map[unsafe.Pointer]reflect.Value) {
 	dst = settable(dst)
 	src = readable(src)
 	switch src.Kind() {
@@ -257,8 +260,13 @@ func deepCopyInto(dst, src reflect.Value) {
 			dst.Set(reflect.Zero(src.Type()))
 			return
 		}
+		if c, ok := memo[src.UnsafePointer()]; ok && c.Type() == src.Type() {
+			dst.Set(c)
+			return
+		}
 		n := reflect.New(src.Type().Elem())
-		deepCopyInto(n.Elem(), src.Elem())
+		memo[src.UnsafePointer()] = n
+		deepCopyMemo(n.Elem(), src.Elem(), memo)
 		dst.Set(n)
 	case reflect.Slice:
 		if src.IsNil() {
@@ -267,16 +275,16 @@ func deepCopyInto(dst, src reflect.Value) {
 		}
 		n := reflect.MakeSlice(src.Type(), src.Len(), src.Len())
 		for i := 0; i < src.Len(); i++ {
-			deepCopyInto(n.Index(i), src.Index(i))
+			deepCopyMemo(n.Index(i), src.Index(i), memo)
 		}
 		dst.Set(n)
 	case reflect.Array:
 		for i := 0; i < src.Len(); i++ {
-			deepCopyInto(dst.Index(i), src.Index(i))
+			deepCopyMemo(dst.Index(i), src.Index(i), memo)
 		}
 	case reflect.Struct:
 		for i := 0; i < src.NumField(); i++ {
-			deepCopyInto(dst.Field(i), src.Field(i))
+			deepCopyMemo(dst.Field(i), src.Field(i), memo)
 		}
 	case reflect.Map:
 		if src.IsNil() {
@@ -287,7 +295,7 @@ func deepCopyInto(dst, src reflect.Value) {
 		it := src.MapRange()
 		for it.Next() {
 			v := reflect.New(src.Type().Elem()).Elem()
-			deepCopyInto(v, it.Value())
+			deepCopyMemo(v, it.Value(), memo)
 			n.SetMapIndex(it.Key(), v)
 		}
 		dst.Set(n)
